@@ -99,6 +99,10 @@ func goNameAnnotation(e compile.NamedEntity) (string, error) {
 		return "", nil
 	}
 
+	if name == "" {
+		return "", fmt.Errorf("the go.name annotation of %q has no value", e.ThriftName())
+	}
+
 	c, _ := utf8.DecodeRuneInString(name)
 	capitalized := unicode.IsLetter(c) && unicode.IsUpper(c)
 	underscore := strings.Contains(name, "_")
